@@ -156,6 +156,14 @@ fn key_alphabet() -> Vec<String> {
         keys.push(format!("{}é", "k".repeat(n - 2)));
         keys.push(format!("{}/{}", "d".repeat(n / 2), "f".repeat(n - n / 2 - 1)));
     }
+    // the same limit for keys made only of characters that are escaped on the wire (the limit is on the decoded key:
+    // the request path is up to three times as long, nine times for a doubly escaped spelling)
+    for ch in [" ", "%", "#", "?", "+", "é", "日", "😀"] {
+        let n = 1024 / ch.len();
+        keys.push(ch.repeat(n)); // at most 1024 bytes, as close to the limit as whole characters allow
+        keys.push(format!("{}{}", ch.repeat(n), if (n + 1) * ch.len() > 1024 { ch } else { "kk" })); // over the limit
+        keys.push(ch.repeat(n / 3)); // well inside, with a wire form longer than 1024 bytes
+    }
     keys
 }
 
@@ -325,7 +333,7 @@ pub fn run(ctx: &Ctx) -> (Acc, Report) {
     let n = ctx.tier.pick(7, 8);
     let rep = Report {
         level: "exploration",
-        rule: format!("bucket names: all strings of length 0..{n} over {{a,A,1,.,-,_}} plus boundary lengths, IP shapes and reserved prefixes/suffixes, each path-style and virtual-hosted-style, judged by a sandwich (breaks a core rule => refused; valid under the complete published rules => accepted and resolved to itself; in between not judged). Keys: 35 keys (slashes, dots, blanks, + % ? # non-ASCII, literal escapes, 1023/1024/1025 bytes) x host parser {{none, single, multi(1..4)}} x hosts {{each base domain, bucket.domain, three hosts per domain that end with its text without belonging to it, IPv4, IPv4:port, [v6]:port, [v6]}}: backend's (bucket,key) must equal the client's in both styles. Constructors: all ordered selections of <=3 of 11 domains. Distinct by id."),
+        rule: format!("bucket names: all strings of length 0..{n} over {{a,A,1,.,-,_}} plus boundary lengths, IP shapes and reserved prefixes/suffixes, each path-style and virtual-hosted-style, judged by a sandwich (breaks a core rule => refused; valid under the complete published rules => accepted and resolved to itself; in between not judged). Keys: 63 keys (slashes, dots, blanks, + % ? # non-ASCII, literal escapes, 1023/1024/1025 bytes; keys made only of escaped characters - blank % # ? + and 2-, 3-, 4-byte characters - at the limit, over it, and at a third of it) x host parser {{none, single, multi(1..4)}} x hosts {{each base domain, bucket.domain, three hosts per domain that end with its text without belonging to it, IPv4, IPv4:port, [v6]:port, [v6]}}: backend's (bucket,key) must equal the client's in both styles. Constructors: all ordered selections of <=3 of 11 domains. Distinct by id."),
         exhaustive: true,
         extra: json!({}),
         assumptions: vec!["a Host that belongs (label-wise) to no configured base domain may be refused or taken as a whole (bucket = host, the repository's choice); it must never be split against a base domain whose text it merely ends with".into(), "keys are percent-encoded once by the reference encoder (UriEncode, slash kept)".into()],
